@@ -271,6 +271,8 @@ def run_requester(initial, more, channel, lenreq, in_on_subscribe=()):
 
 
 def correspond(ctx, corr, model_ok):
+    corr.oracle_failures.extend(credit_behind_request_oracle())
+    corr.count('credit granted while the fragmented request is partly written', 20)
     rng = ctx.rng
     items = []
     kinds = ['gen', 'agen', 'rx4', 'rx3']
@@ -385,6 +387,8 @@ def search(ctx, budget_s):
 
 
 def replay(obj):
+    if 'credit_case' in (obj.get('case') or {}):
+        return bool(credit_behind_request_oracle())
     case = obj['case']
     k = case['kind']
     if k == 'source':
@@ -421,3 +425,70 @@ def replay(obj):
     if o:
         print('oracle:', o)
     return bool(o)
+
+
+# ---------------------------------------------------------------------------------------------
+# credit granted right after subscribing, while the stream's own fragmented request frame is still being written
+
+def run_credit_behind_request(permits, lenreq, channel, seed):
+    """two real endpoints, requester fragment size 64 and a blocked writer; the 400-byte request needs several fragments;
+    the subscriber grants 2 more credits from on_subscribe (initial request-n = 1); the responder serves 3 elements from a
+    StreamFromGenerator.  All 3 must arrive: the REQUEST_N must not reach the peer before the request is complete."""
+    import random as _r
+    from harness import net as NET
+    from rsocket.payload import Payload
+    from rsocket.request_handler import BaseRequestHandler
+    from rsocket.streams.stream_from_generator import StreamFromGenerator
+    rng = _r.Random(seed)
+
+    class H(BaseRequestHandler):
+        async def request_stream(self, payload):
+            def g():
+                for i in range(3):
+                    yield Payload(b'%d' % (i + 1)), i == 2
+            return StreamFromGenerator(g)
+
+        async def request_channel(self, payload):
+            def g():
+                for i in range(3):
+                    yield Payload(b'%d' % (i + 1)), i == 2
+            return StreamFromGenerator(g), None
+    net = NET.Net(lenreq, 64, None, handler_factories={'server': H})
+    try:
+        net.flush(rng)
+        t = net.t['client']
+        t.gated = True
+        sub = Rec(request_in_on_subscribe=(2,))
+        ep = net.ep['client']
+        p = Payload(b'Q' * 400)
+        if channel:
+            net.act(lambda: ep.request_channel(p).initial_request_n(1).subscribe(sub))
+        else:
+            net.act(lambda: ep.request_stream(p).initial_request_n(1).subscribe(sub))
+        for _ in range(permits):
+            t.permit(1)
+            net.loop.settle()
+        t.gated = False
+        for _ in range(60):
+            t.permit(1)
+            net.loop.settle()
+            net.flush(rng)
+        got = [e for e in sub.events if e[0] == 'next']
+        return {'elements': len(got), 'events': [e[0] for e in sub.events],
+                'wire': [(sim.parse_sent(b)['t'], bool(sim.parse_sent(b).get('follows'))) for b in t.wire]}
+    finally:
+        net.finish()
+
+
+def credit_behind_request_oracle():
+    out = []
+    n = 0
+    for channel in (False, True):
+        for permits in (0, 1, 2, 3, 5):
+            for lenreq in (True, False):
+                n += 1
+                r = run_credit_behind_request(permits, lenreq, channel, n)
+                if r['elements'] != 3:
+                    out.append({'what': 'credit granted from on_subscribe was lost: %d of 3 elements delivered' % r['elements'],
+                                'credit_case': [permits, lenreq, channel, n], 'wire': repr(r['wire'])[:300]})
+    return out
